@@ -6,7 +6,7 @@ use arrow::array::{Int64Array, RecordBatch};
 use arrow::datatypes::{DataType, Field, Schema};
 use std::sync::Arc;
 
-#[tokio::main]
+#[tokio::main(flavor = "current_thread")]
 async fn main() -> datafusion::error::Result<()> {
     let limit: usize = std::env::args().nth(1).map(|s| s.parse().unwrap()).unwrap_or(0);
     let parts: usize = std::env::args().nth(2).map(|s| s.parse().unwrap()).unwrap_or(4);
@@ -18,6 +18,20 @@ async fn main() -> datafusion::error::Result<()> {
     let ctx = SessionContext::new_with_config_rt(cfg, rt);
     ctx.register_table("a", Arc::new(MemTable::try_new(schema.clone(), vec![vec![mk(vec![0], vec![-14])], vec![mk(vec![1], vec![0])]])?))?;
     ctx.register_table("b", Arc::new(MemTable::try_new(schema.clone(), vec![vec![mk(vec![100, 101, 102], vec![-207, -300, -400])]])?))?;
+    if sql == "reexec" {
+        // Third finding: the fallback executes the left child a second time. A left subtree that holds a
+        // RepartitionExec (whose output partitions can be executed once) then panics instead of failing
+        // with ResourcesExhausted or producing the result.
+        use datafusion::physical_plan::{ExecutionPlan, Partitioning, coalesce_partitions::CoalescePartitionsExec, joins::NestedLoopJoinExec, repartition::RepartitionExec};
+        let left = ctx.sql("SELECT id, v FROM a").await?.create_physical_plan().await?;
+        let right = ctx.sql("SELECT id, v FROM b").await?.create_physical_plan().await?;
+        let left: Arc<dyn ExecutionPlan> = Arc::new(CoalescePartitionsExec::new(Arc::new(RepartitionExec::try_new(left, Partitioning::RoundRobinBatch(parts))?)));
+        let join: Arc<dyn ExecutionPlan> = Arc::new(NestedLoopJoinExec::try_new(left, right, None, &datafusion::common::JoinType::Inner, None)?);
+        println!("{}", datafusion::physical_plan::displayable(join.as_ref()).indent(true));
+        let out = datafusion::physical_plan::collect(join, ctx.task_ctx()).await;
+        println!("result: {:?}", out.map(|b| b.iter().map(|x| x.num_rows()).sum::<usize>()));
+        return Ok(());
+    }
     let df = ctx.sql(&sql).await?;
     println!("{}", datafusion::physical_plan::displayable(df.clone().create_physical_plan().await?.as_ref()).indent(true));
     df.show().await?;
